@@ -262,6 +262,9 @@ class _ReadSourceGenerator:
             field_type = field_type.type
 
         if issubclass(field_type, Char):
+            # The value is a plain number, but the storage unit is that of the char type:
+            # it must not be shared with a neighbouring uint8 bit field
+            read_type = lookup
             field_type = field_type.cs.uint8
             lookup = "cls.cs.uint8"
 
